@@ -263,6 +263,14 @@ def confirm_shrink_report(check, prop: str, rec: dict, known: list[dict], do_shr
         # the replay file must reproduce the violation in a fresh process
         ex.close()
         ok = replay_file(check, prop, path, quiet=True) == 1
+        if not ok and not history_dependent and best is not scn:
+            # the shrunk scenario only failed inside the long-lived shrinking process (state carried between calls):
+            # fall back to the scenario as found, which was confirmed in a fresh interpreter above
+            replay["scenario"] = scn
+            replay["shrink"] = dict(st, discarded="shrunk scenario did not reproduce in a fresh interpreter (history-dependent)")
+            path = os.path.join(VERIF, "replays", "%s-%s.json" % (prop, S.digest([scn, oracle])))
+            S.save(path, replay)
+            ok = replay_file(check, prop, path, quiet=True) == 1
         if not ok and not history_dependent:
             return "unconfirmed", path
         return "violation", path
